@@ -16,8 +16,10 @@ enum Op {
     LocalToggle,
     LocalTake,
     Restore,
+    /// `let _ = local_take();`
+    TakeDiscard,
 }
-const OPS: [Op; 8] = [Op::Enable, Op::Disable, Op::Toggle, Op::LocalEnable, Op::LocalDisable, Op::LocalToggle, Op::LocalTake, Op::Restore];
+const OPS: [Op; 9] = [Op::Enable, Op::Disable, Op::Toggle, Op::LocalEnable, Op::LocalDisable, Op::LocalToggle, Op::LocalTake, Op::Restore, Op::TakeDiscard];
 
 #[derive(Clone, Copy, PartialEq, Eq, Debug)]
 enum Flag {
@@ -69,6 +71,7 @@ fn apply(global: &mut bool, th: &mut Th, op: Op) {
                 th.local = f;
             }
         }
+        Op::TakeDiscard => th.local = Flag::Global,
     }
 }
 
@@ -129,6 +132,9 @@ fn run_program(prog: &[Op]) -> Vec<bool> {
                 if let Some(t) = token.take() {
                     te::restore(t)
                 }
+            }
+            Op::TakeDiscard => {
+                let _ = te::local_take();
             }
         }
         obs.push(te::is_enabled());
